@@ -2,6 +2,7 @@ package props
 
 import (
 	"fmt"
+	"strings"
 
 	"verif/gen"
 	"verif/link"
@@ -121,12 +122,39 @@ func runC09(c *sim.Ctx) *sim.Violation {
 	} else {
 		c.Count("sweep.a.every-interior-position-frames")
 	}
+	// property sections: [start of content, end) and the field holding their length
+	type section struct {
+		lenField ref.Field
+		from, to int
+	}
+	var sections []section
+	for _, f := range fm {
+		if f.Kind == "varint" && strings.HasSuffix(f.Name, "PropertyLength") {
+			val, _, _ := ref.ParseVarint(frame[f.Start:f.End])
+			sections = append(sections, section{f, f.End, f.End + int(val)})
+		}
+	}
 	for _, cu := range cuts {
 		d := gen.FixRL(append([]byte{}, frame[:cu.pos]...))
 		n++
 		c.Count("fault.a.cut-inside-" + cu.what)
 		if v := judge("a", cu.what, d, fmt.Sprintf("(a) frame cut at offset %d, strictly inside a %s, remaining length rewritten", cu.pos, cu.what)); v != nil {
 			return v
+		}
+		// the same cut with the enclosing PROPERTY LENGTH rewritten as well: every
+		// length in the frame is truthful and the frame still ends inside the field
+		for _, sc := range sections {
+			if cu.pos > sc.from && cu.pos < sc.to {
+				d2 := append([]byte{}, frame[:sc.lenField.Start]...)
+				d2 = ref.AppendVarint(d2, uint32(cu.pos-sc.from))
+				d2 = append(d2, frame[sc.from:cu.pos]...)
+				d2 = gen.FixRL(d2)
+				n++
+				c.Count("fault.a.cut-inside-" + cu.what + "(property-length-rewritten-too)")
+				if v := judge("a", cu.what+"/truthful-property-length", d2, fmt.Sprintf("(a) frame cut at offset %d, strictly inside a %s; remaining length AND the enclosing %s rewritten", cu.pos, cu.what, sc.lenField.Name)); v != nil {
+					return v
+				}
+			}
 		}
 	}
 	// (b) five-byte variable byte integers
